@@ -273,6 +273,8 @@ class APE:
                 return st.env[key]
             if k in ("MemberExpr", "ArraySubscriptExpr"):
                 cg_ = self._const_global_read(st, n)
+                if cg_ is None:
+                    cg_ = self._const_global_key(st, key)
                 if cg_ is not None:
                     return cg_
             if k == "DeclRefExpr" and n.get("dk") in ("local", "param", "func", "global", "slocal"):
@@ -447,6 +449,43 @@ class APE:
             l = strip(l["kids"][0])
         return None
 
+    def _const_global_key(self, st, key):
+        """Same as _const_global_read for a place named through a pointer that holds the address of a table element
+        (`info = &table[2]; info->name` is the place table[#2].name)."""
+        m = _re.match(r"^([A-Za-z_]\w*)((?:\[#\d+\]|\.\w+)+)$", key)
+        if not m or not hasattr(self.prog, "globals"):
+            return None
+        g = self.prog.globals.get((self.cur(st).unit, m.group(1)))
+        if g is None or not g.get("const") or g.get("init") is None:
+            return None
+        x = strip(g["init"])
+        for step in _re.findall(r"\[#\d+\]|\.\w+", m.group(2)):
+            if x is None or x["k"] != "InitListExpr":
+                return None
+            ks = kids(x)
+            if step.startswith("["):
+                i = int(step[2:-1])
+            else:
+                rec = self.prog.record(x.get("rec"), self.cur(st).unit) if x.get("rec") else None
+                names = [f_["name"] for f_ in rec["fields"]] if rec else []
+                if step[1:] not in names:
+                    return None
+                i = names.index(step[1:])
+            if not (0 <= i < len(ks)):
+                return None
+            x = strip(ks[i])
+        if x is None:
+            return None
+        if "val" in x:
+            return ("c", x["val"])
+        if x["k"] == "StringLiteral":
+            return ("s", canon(x))
+        if x["k"] == "DeclRefExpr" and x.get("dk") == "func":
+            return ("s", "&" + x["name"])
+        if x["k"] == "ImplicitValueInitExpr" or x.get("null"):
+            return ("c", 0)
+        return None
+
     def _localobj(self, key, n):
         """Name of the local object (struct, or array declared in the function) that lvalue n / key lies in, else None."""
         m = _LOCALSTRUCT.match(key)
@@ -544,6 +583,12 @@ class APE:
                 return rel in acc
             if a[0] == "c" and b[0] != "c":
                 a, b, acc, l, r = b, a, mirror(acc), r, l
+            if a[0] == "s" and a[1].startswith("&") and "(" not in a[1] and b == ("c", 0):
+                # the address of an object is not NULL
+                if acc == frozenset((EQ,)):
+                    return False
+                if acc == frozenset((LT, GT)):
+                    return True
             if a[0] == "s" and a[1].startswith("!") and b == ("c", 0):
                 # (!x) ? 0
                 return self._truth_atom(("s", a[1][1:]), ALL - acc if acc in (frozenset((EQ,)), frozenset((LT, GT))) else None, (l, r))
@@ -764,10 +809,15 @@ class APE:
                         if last is None or "[" in last:
                             # plain dereference / element: written only through a pointer handed over for writing
                             wroots = set()
+                            exact = []
                             for wi in widx:
                                 if wi < len(args):
                                     wroots.update(_re.findall(r"[A-Za-z_]\w*", canon(args[wi])))
+                                    exact.append(self._valkey(st, args[wi]) if strip(args[wi])["k"] in ("DeclRefExpr", "MemberExpr", "UnaryOperator", "ArraySubscriptExpr") else None)
                             if m0 and m0.group(1) in wroots:
+                                # handed the *value* of this very place (f(*out)): the callee can write what it points to, not the place
+                                if last is None and k in exact and not any(x is not None and x != k and (x == "&" + k or k.startswith("*" + x)) for x in exact):
+                                    continue
                                 del st.env[k]
                         elif last in wf:
                             del st.env[k]
